@@ -1,6 +1,7 @@
 (* C16 requests: 1600.. *)
 From Coq Require Import List ZArith QArith Bool.
 From PV Require Import lib.Sx lib.Str lib.Result model.SccStash model.SccPopon model.SccRollPaint spec.SpecScc16 spec.SpecSccTime extract.OrCommon.
+From PV Require Import model.SccDecoder model.SccTokenise spec.SpecScc16Sent.
 Import ListNotations.
 Open Scope Z_scope.
 
@@ -48,6 +49,12 @@ Definition dispatch (code : Z) (arg : sx) : option sx :=
                               of_bool (match obs with Ok c => ok_chain c | Err _ => false end)]
                       | _, _ => bad
                       end
+                  | _ => bad
+                  end)
+  | 1603 => Some (match arg with          (* SCC text -> [dom608; sent608]: the independent 608 reading of the word stream *)
+                  | SS text =>
+                      let lines := map snd (tokenise text) in
+                      SL [of_bool (dom_lines (None, false) lines); SS (sent608 lines)]
                   | _ => bad
                   end)
   | 1602 => Some (match arg with          (* event model: [first mode command [tc; k]; events [kind; tc; k]; pending] -> spans *)
